@@ -159,6 +159,8 @@ pub struct ChainBranch {
 pub struct ChainProg {
     pub mac: String,
     pub branches: Vec<ChainBranch>,
+    /// (place, inner macro, depth) of every nested invocation (C17)
+    pub nestings: Vec<(String, String, usize)>,
 }
 
 pub struct CG<'a> {
@@ -179,6 +181,11 @@ pub struct CG<'a> {
     pub ck: f64,
     /// probability of the !Send / move-only types `Ns` / `Mv` where a scalar is drawn
     pub ns: f64,
+    /// probability that a callback operand is written as a closure around a nested macro invocation (C17)
+    pub nest: f64,
+    pub nest_depth: usize,
+    /// nestings generated so far: (outer position, inner macro, depth)
+    pub nest_log: Vec<(String, String, usize)>,
 }
 
 fn rb(rng: &mut TestRng, p: f64) -> bool {
@@ -217,7 +224,57 @@ impl<'a> CG<'a> {
     }
 
     /// operand for a callback `A -> B` in one of several shapes
+    /// `::join::MAC! { from_text <generated chain from `from` to `goal`> }` for a random macro name
+    pub fn nested_invocation(&mut self, from: &Ty, from_text: &str, goal: &Ty, place: &str) -> String {
+        let tryable = matches!(goal, Ty::Opt(_) | Ty::Res(_));
+        let res_goal = matches!(goal, Ty::Res(_));
+        let mut names: Vec<&'static str> = vec!["join", "join_spawn", "spawn", "join_async", "join_async_spawn", "async_spawn"];
+        if tryable {
+            names.extend(["try_join", "try_join_spawn", "try_spawn"]);
+        }
+        if res_goal {
+            names.extend(["try_join_async", "try_join_async_spawn", "try_async_spawn"]);
+        }
+        let mac = self.pick(&names);
+        let is_async = mac.contains("async");
+        let saved = (self.fam, self.force, self.forced_done, self.depth, self.spawn_async);
+        self.fam = if is_async { Family::AsyncClosed } else { Family::Sync };
+        self.force = None;
+        self.depth = 0;
+        self.spawn_async = true;
+        self.nest_depth += 1;
+        let len = self.rng.random_range(0..4usize);
+        let (ops, _fin) = self.walk(from, len, Some(goal), false);
+        self.nest_log.push((place.to_string(), mac.to_string(), self.nest_depth));
+        self.nest_depth -= 1;
+        self.fam = saved.0;
+        self.force = saved.1;
+        self.forced_done = saved.2;
+        self.depth = saved.3;
+        self.spawn_async = saved.4;
+        let mut body = from_text.to_string();
+        render_ops(&ops, &mut body);
+        if is_async {
+            format!("drive(::join::{}! {{ {} -> ready }})", mac, body)
+        } else {
+            format!("::join::{}! {{ {} }}", mac, body)
+        }
+    }
+
     fn cb(&mut self, a: &Ty, b: &Ty, allow_cap: bool) -> String {
+        if self.nest_depth < 2 && !matches!(a, Ty::Iter(_) | Ty::Ref(_)) && rb(self.rng, self.nest) {
+            // the operand is a closure around a nested macro invocation, or a block capture that
+            // evaluates one
+            if allow_cap && rb(self.rng, 0.4) {
+                let cid = self.id();
+                let kid = self.id();
+                let inner = self.nested_invocation(&Ty::I64, &format!("altv::<i64>({})", kid), &Ty::I64, "capture");
+                let id = self.id();
+                return format!("{{ cap({}); let __k = {}; move |v: {}| -> {} {{ xcbf::<({}, i64), {}>({}, (v, __k)) }} }}", cid, inner, a.name(), b.name(), a.name(), b.name(), id);
+            }
+            let inner = self.nested_invocation(a, "v", b, "operand");
+            return format!("|v: {}| -> {} {{ {} }}", a.name(), b.name(), inner);
+        }
         let id = self.id();
         let core = if self.shapes {
             match self.rng.random_range(0..6) {
@@ -802,6 +859,10 @@ fn ref_apply(prev: String, op: &COp, fam: Family) -> String {
         }
     }
     r
+}
+
+pub fn ref_apply_pub(prev: String, op: &COp, fam: Family) -> String {
+    ref_apply(prev, op, fam)
 }
 
 pub fn render_branch_ref(b: &ChainBranch, fam: Family) -> String {
